@@ -408,6 +408,13 @@ func c12TamperCP(name string, cp, donor *CommitmentProof, root, com, otherRoot, 
 		}
 		np := nmt.NewInclusionProof(p.Start()+d, p.End()+d, p.Nodes(), true)
 		q.SubtreeRootProofs[i] = &np
+		// The position of a subtree-root proof is not authenticated beyond what the node list forces: nmt does not
+		// know the tree size and, when the node list runs out, accepts the same roots under a shifted range that
+		// yields the same tree shape (DESIGN section 2, compute_root_sound needs the bound on the claimed range).
+		// The statement proven - these subtree roots are in this row, the rows in this data root, the roots hash to
+		// this commitment - is unchanged, so an accepted shift is not a violation; whether it is accepted is still
+		// compared with the model case by case (L2).
+		t.meta = true
 	case "drop-subtree-node", "append-subtree-node", "substitute-subtree-node":
 		i := pickSP()
 		p := q.SubtreeRootProofs[i]
@@ -719,6 +726,8 @@ func TestVerifC12(t *testing.T) {
 	defer cancel()
 	gEq := r.Group("proofeq", c12EqHeader, "pcase", "mismatches")
 	gCom := r.Group("commitment", c12ComHeader, "ccase", "mismatches")
+	gRows := r.Group("proofrows", c12RowsHeader(), "rcase", "rows_mismatches")
+	defer func() { gRows.Header = c12RowsHeader() + c11NsDefs() }() // runs before r.Finish
 	rng := r.Rand()
 
 	var rp c12Replay
@@ -726,15 +735,6 @@ func TestVerifC12(t *testing.T) {
 	if r.ReplayInput(&rp) {
 		specs = append(specs, rp.Spec)
 	} else {
-		// chained layouts: blobs of one namespace, each starting in the row in which a multi-row predecessor ended
-		for i := 0; i < r.N(2, 12); i++ {
-			if spec, ok := c12GenChainedBuilt(rng.Fork(uint64(1000+i)), 2+i%2); ok {
-				specs = append(specs, spec)
-			}
-		}
-		for i := 0; i < r.N(8, 60); i++ {
-			specs = append(specs, c12GenChainedLayout(rng.Fork(uint64(2000+i)), i))
-		}
 		for i := 0; i < r.N(9, 120); i++ {
 			rr := rng.Fork(uint64(i))
 			spec := c11GenBuilt(rr)
@@ -746,6 +746,17 @@ func TestVerifC12(t *testing.T) {
 				spec.Txs = append(spec.Txs, c11TxSpec{Seed: rr.U64(), Blobs: []c11BlobSpec{{Ns: 0, Size: 478 + 482*(64+rr.Intn(200)), Seed: rr.U64()}}})
 			}
 			specs = append(specs, spec)
+		}
+		// chained layouts: blobs of one namespace, each starting in the row in which a multi-row predecessor ended
+		// (drawn from a stream of their own and placed last: the blocks above and their tampers do not depend on them)
+		crng := zv.NewRand(r.Seed ^ 0xc12e)
+		for i := 0; i < r.N(8, 60); i++ {
+			specs = append(specs, c12GenChainedLayout(crng.Fork(uint64(2000+i)), i))
+		}
+		for i := 0; i < r.N(2, 12); i++ {
+			if spec, ok := c12GenChainedBuilt(crng.Fork(uint64(1000+i)), 1+i%2); ok {
+				specs = append(specs, spec)
+			}
 		}
 	}
 
@@ -762,7 +773,7 @@ func TestVerifC12(t *testing.T) {
 		r.Count("block_kind", spec.Kind)
 
 		// every blob of the block: the proof handed out covers exactly the rows of the blob, Included accepts exactly it
-		c12ProofRows(ctx, r, spec, blk, svc, g)
+		c12ProofRows(ctx, r, gRows, spec, blk, svc, g)
 		if spec.Kind != "built" {
 			continue // hand-placed shares: blobs are not aligned for commitment proofs
 		}
@@ -1105,13 +1116,18 @@ func c12GenChainedBuilt(rng *zv.Rand, links int) (c11BlockSpec, bool) {
 	return c11BlockSpec{}, false
 }
 
+// header of the proof-rows cases: the parser model's notations (CN.Blob.Parser transcribes retrieve incl. its proofs bookkeeping)
+func c12RowsHeader() string {
+	return strings.Replace(c11Header, "Blob.Parser.", "Blob.Parser Blob.ProofRows.", 1)
+}
+
 // c12ProofRows checks, for every blob of the block, against an expectation computed without the service (the builder's record
 // of start index / share count, the square width, and the row proofs of the namespace straight from the square):
 //   - GetProof returns one nmt proof per row the blob occupies, each proving that row's namespace shares to that row's root;
 //   - Included answers yes for exactly that proof and for GetProof's;
 //   - Included refuses that proof padded in front with the proofs of the preceding rows (the previous blob's), trimmed, and the
 //     proof of a neighbouring blob of the namespace.
-func c12ProofRows(ctx context.Context, r *zv.Run, spec c11BlockSpec, blk *c11Block, svc *Service, g *c11Getter) {
+func c12ProofRows(ctx context.Context, r *zv.Run, gRows *zv.Group, spec c11BlockSpec, blk *c11Block, svc *Service, g *c11Getter) {
 	chained, longest := c12Chained(blk)
 	for i := 0; i < chained; i++ {
 		r.Count("rows_layout", "blob-starting-in-last-row-of-multirow-predecessor")
@@ -1137,6 +1153,29 @@ func c12ProofRows(ctx context.Context, r *zv.Run, spec c11BlockSpec, blk *c11Blo
 			r.Count("rows_skipped", "namespace-data")
 			continue
 		}
+		// L2: identifiers of the rows' proofs (equal content <-> equal id, ids from 1), queries collected per blob
+		d := newC11Dict()
+		rowIDs := make([]int, len(nd))
+		for j := range nd {
+			rowIDs[j] = j + 1
+			for q := 0; q < j; q++ {
+				if c12ProofSame(Proof{nd[q].Proof}, Proof{nd[j].Proof}) {
+					rowIDs[j] = rowIDs[q]
+					break
+				}
+			}
+		}
+		idOf := func(c *nmt.Proof) int {
+			if c != nil {
+				for j := range nd {
+					if c12ProofSame(Proof{nd[j].Proof}, Proof{c}) {
+						return rowIDs[j]
+					}
+				}
+			}
+			return 100000 // not the proof of any row of the namespace
+		}
+		var qs []string
 		expected := func(ref c11Ref) Proof {
 			r0, r1 := c12Rows(ref, blk.k)
 			if r0 < firstRow || r1-firstRow >= len(nd) {
@@ -1191,7 +1230,17 @@ func c12ProofRows(ctx context.Context, r *zv.Run, spec c11BlockSpec, blk *c11Blo
 			var pr *Proof
 			if p := zv.Recover(func() { pr, err = svc.GetProof(ctx, 1, ns, b.com) }); p != "" || err != nil || pr == nil {
 				r.Violation("proof-not-produced", "GetProof failed for "+where+": "+fmt.Sprint(p, err), rep("", fmt.Sprint(p, err)))
+				if p == "" && errors.Is(err, ErrBlobNotFound) {
+					qs = append(qs, "(ComBlob "+d.blob(b.blob)+", RNotFound)")
+				} else {
+					qs = append(qs, "(ComBlob "+d.blob(b.blob)+", RErr)")
+				}
 			} else {
+				ids := make([]string, len(*pr))
+				for j, c := range *pr {
+					ids[j] = strconv.Itoa(idOf(c))
+				}
+				qs = append(qs, "(ComBlob "+d.blob(b.blob)+", RRows ["+strings.Join(ids, ";")+"]%N)")
 				bad := ""
 				if len(*pr) != r1-r0+1 {
 					bad = fmt.Sprintf("%d components for %d rows", len(*pr), r1-r0+1)
@@ -1255,6 +1304,35 @@ func c12ProofRows(ctx context.Context, r *zv.Run, spec c11BlockSpec, blk *c11Blo
 				reject("included-trimmed-proof-accepted", "the blob's proof without its first row", exp[1:])
 				reject("included-trimmed-proof-accepted", "the blob's proof without its last row", exp[:len(exp)-1])
 			}
+		}
+		// L2: the same queries on the model (Blob/Parser.v get_proof_rows through Blob/ProofRows.v)
+		nshares := 0
+		for _, row := range nd {
+			nshares += len(row.Shares)
+		}
+		if len(qs) > 0 && nshares <= 1500 {
+			idt := make([]string, len(rowIDs))
+			for j, v := range rowIDs {
+				idt[j] = strconv.Itoa(v)
+			}
+			key := ""
+			nsChained := false
+			for i := 1; i < len(refs); i++ {
+				p0, p1 := c12Rows(refs[i-1], blk.k)
+				if b0, _ := c12Rows(refs[i], blk.k); p1 > p0 && b0 == p1 {
+					nsChained = true
+				}
+			}
+			switch {
+			case nsChained:
+				key = "chained"
+			case len(refs) >= 2:
+				key = "several-blobs"
+			}
+			term := "(" + c11NsNum(ns.Bytes()) + "%N, " + c11Ranges(blk.hdr) + ", " + d.rows(nd) + ", [" + strings.Join(idt, ";") + "]%N, [" + strings.Join(qs, "; ") + "])"
+			gRows.Case(term, map[string]any{"spec": spec, "namespace": ns.Bytes(), "blobs": len(refs), "rows": len(nd)}, key)
+		} else if len(qs) > 0 {
+			r.Count("rows_skipped", "l2-namespace-too-large")
 		}
 	}
 }
